@@ -8,6 +8,7 @@
 import PyTough.Proofs.GridPhys
 import PyTough.Proofs.GridMincAll
 import PyTough.Proofs.GridPhysMore
+import PyTough.Proofs.GridPhysMoreMinc
 import PyTough.Props.C08
 namespace Props.C09
 open Py Model Model.Grid Model.Grid.World
@@ -167,6 +168,98 @@ theorem minc_keeps_total_volume {args : MincArgs} {fracs : List Rat} {N0 : Nat} 
 theorem minc_keeps_inv {w : World} (hI : Grid.Inv w) (args : MincArgs) : Grid.Inv (step w (.minc args)).w :=
   Props.C08.inv_step hI _ rfl
 
+/-! ### MINC: counts, and what it leaves alone -/
+
+/-- **Block and connection counts.**  Under the hypotheses of `minc_spec`, with `P` the number of
+    selected names whose block is processed (`0 < V < atmos_volume`, `Proofs.Grid.mincProcessed`) and
+    `L = len(volume_fractions)`: the original blocks and connections keep their places at the front of
+    `blocklist` / `connectionlist`, and exactly `P·(L−1)` new block objects and `P·(L−1)` new connection
+    objects are appended (one matrix block and one connection per processed block and matrix level);
+    unselected and boundary blocks contribute nothing. -/
+theorem minc_counts {w : World} (hI : Grid.Inv w) (args : MincArgs) {w' : World} {cols : List (List Nat)}
+    (hok : minc w args = .ok (w', cols))
+    (hnd : (if args.blocks.isEmpty then w.blocklist.map w.bname else args.blocks).Nodup)
+    (hall : ∀ n ∈ (if args.blocks.isEmpty then w.blocklist.map w.bname else args.blocks), (dget w.block n).isSome) :
+    let sel := if args.blocks.isEmpty then w.blocklist.map w.bname else args.blocks
+    let K := (sel.filter (Proofs.Grid.mincProcessed w args)).length * (args.fracs.length - 1)
+    w'.blocklist = w.blocklist ++ List.range' w.blks.length K ∧
+    w'.connectionlist = w.connectionlist ++ List.range' w.cons.length K ∧
+    w'.blocklist.length = w.blocklist.length + K ∧ w'.connectionlist.length = w.connectionlist.length + K := by
+  intro sel K
+  obtain ⟨h1, _, h3, _⟩ := Proofs.Grid.minc_frame hI args hok hnd hall
+  refine ⟨h1, h3, ?_, ?_⟩
+  · rw [h1]; simp only [List.length_append, List.length_range']; rfl
+  · rw [h3]; simp only [List.length_append, List.length_range']; rfl
+
+/-- **Inter-block connections and unselected blocks are untouched.**  Under the hypotheses of `minc_spec`:
+    (a) every connection object that existed keeps its two blocks, both distances, area, direction and
+        gravity cosine (`minc` in /repo does not rescale the fracture–fracture interface areas);
+    (b) every connection of the new grid whose second block is an original block — in particular every
+        connection between two original (now fracture) blocks — is one of the old connections, unchanged:
+        the new connections all end in a newly created matrix block;
+    (c) every connection of the new grid that touches an original block which was not processed
+        (unselected, or a boundary block) is one of the old connections, unchanged. -/
+theorem minc_leaves_other_connections {w : World} (hI : Grid.Inv w) (args : MincArgs) {w' : World} {cols : List (List Nat)}
+    (hok : minc w args = .ok (w', cols))
+    (hnd : (if args.blocks.isEmpty then w.blocklist.map w.bname else args.blocks).Nodup)
+    (hall : ∀ n ∈ (if args.blocks.isEmpty then w.blocklist.map w.bname else args.blocks), (dget w.block n).isSome) :
+    let sel := if args.blocks.isEmpty then w.blocklist.map w.bname else args.blocks
+    (∀ c, c < w.cons.length → w'.cn c = w.cn c) ∧
+    (∀ c ∈ w'.connectionlist, (w'.cn c).b1 < w.blks.length → c ∈ w.connectionlist ∧ w'.cn c = w.cn c) ∧
+    (∀ c ∈ w'.connectionlist, ∀ b ∈ w.blocklist, ((w'.cn c).b0 = b ∨ (w'.cn c).b1 = b) →
+        (∀ n ∈ sel, Proofs.Grid.mincProcessed w args n = true → dget w.block n ≠ some b) →
+        c ∈ w.connectionlist ∧ w'.cn c = w.cn c) := by
+  intro sel
+  obtain ⟨_, _, h3, ext, he, hlen, hext⟩ := Proofs.Grid.minc_frame hI args hok hnd hall
+  have hold : ∀ c, c < w.cons.length → w'.cn c = w.cn c := by
+    intro c hc
+    simp only [World.cn, he, List.getD_eq_getElem?_getD, List.getElem?_append_left hc]
+  have hnew : ∀ c ∈ w'.connectionlist, c ∉ w.connectionlist → w'.cn c ∈ ext := by
+    intro c hc hn
+    rw [h3] at hc
+    rcases List.mem_append.mp hc with h | h
+    · exact absurd h hn
+    · obtain ⟨hle, hlt⟩ := List.mem_range'_1.mp h
+      have hlt' : c - w.cons.length < ext.length := by omega
+      have e : w'.cn c = ext[c - w.cons.length] := by
+        simp only [World.cn, he, List.getD_eq_getElem?_getD, List.getElem?_append_right hle,
+          List.getElem?_eq_getElem hlt', Option.getD_some]
+      rw [e]; exact List.getElem_mem hlt'
+  refine ⟨hold, ?_, ?_⟩
+  · intro c hc hb1
+    by_cases hin : c ∈ w.connectionlist
+    · exact ⟨hin, hold c (hI.cl_lt c hin)⟩
+    · have := (hext _ (hnew c hc hin)).1
+      omega
+  · intro c hc b hb hends hnp
+    by_cases hin : c ∈ w.connectionlist
+    · exact ⟨hin, hold c (hI.cl_lt c hin)⟩
+    · obtain ⟨m1, m2⟩ := hext _ (hnew c hc hin)
+      have hblt := hI.bl_lt b hb
+      rcases hends with h | h
+      · rcases m2 with m2 | ⟨n, hn, hp, hd⟩
+        · omega
+        · exact absurd (h ▸ hd) (hnp n hn hp)
+      · omega
+
+/-- **The requested fractions, normalised.**  For one processed block (`MincGroup`, as delivered by
+    `minc_spec`) and *any* requested fractions `f₀, f₁, …` (they need not sum to 1): the fracture block
+    has volume `V·f₀/Σf` and matrix level `k+1` has `V·f_{k+1}/Σf`. -/
+theorem minc_group_volumes_normalised {args : MincArgs} {fracs : List Rat} {N0 : Nat} {w' : World} {V : Rat} {b : Nat} {row : List Nat}
+    (h : MincGroup args (normFracs fracs) N0 w' V b row) (hne : fracs ≠ []) :
+    ∃ base, (w'.bk b).volume = V * (fracs.headD 0 / sumRat fracs) ∧
+      ∀ k (hk : k + 1 < fracs.length), (w'.bk (base + k)).volume = V * (fracs[k + 1] / sumRat fracs) := by
+  obtain ⟨base, cbase, pos0, p, _, _, _, h4, h5, _⟩ := h
+  refine ⟨base, ?_, ?_⟩
+  · rw [h4]
+    cases fracs with
+    | nil => exact absurd rfl hne
+    | cons x r => rfl
+  · intro k hk
+    have hk' : k < ((normFracs fracs).drop 1).length := by simp [normFracs]; omega
+    rw [h5 k hk']
+    simp [normFracs]
+
 /-! ### embed -/
 
 /-- **embed_conserves_volume.**  Under the hypotheses of `Props.C08.embed_consistent`: when `embed`
@@ -307,6 +400,18 @@ example : let o := step w0 mi
     ((o.w.cn 3).b0, (o.w.cn 3).b1, (o.w.cn 3).area, (o.w.cn 3).d0, (o.w.cn 3).d1) = (3, 4, 10, 7, 11) ∧
     checkInv o.w = true := by decide +kernel
 example : sumRat [1, 1, 2] ≠ 0 := by decide +kernel
+
+-- hypotheses of `minc_counts` / `minc_leaves_other_connections`: all blocks selected (default), fractions 1 : 1 : 2
+-- (sum 4, not 1), atmos_volume 3 so that block C (volume 4) is a boundary block: P = 2 processed blocks, K = 2·2 new
+-- blocks and connections; the two old connections A-B, B-C are still objects 0 and 1 with the same data
+def miAll : MincArgs := ⟨[1, 1, 2], [3, 5], [0, 7, 11], [], 3⟩
+example : (match minc w0 miAll with | .ok _ => true | .error _ => false) = true ∧
+    (w0.blocklist.map w0.bname).Nodup ∧ (∀ n ∈ w0.blocklist.map w0.bname, (dget w0.block n).isSome) ∧
+    ((w0.blocklist.map w0.bname).filter (Proofs.Grid.mincProcessed w0 miAll)).length = 2 := by decide +kernel
+example : let o := step w0 (.minc miAll)
+    o.w.blocklist = [0, 1, 2, 3, 4, 5, 6] ∧ o.w.connectionlist = [0, 1, 2, 3, 4, 5] ∧
+    o.w.cn 0 = w0.cn 0 ∧ o.w.cn 1 = w0.cn 1 ∧ (o.w.bk 2).volume = 4 ∧
+    (o.w.bk 0).volume = 1/4 ∧ (o.w.bk 3).volume = 1/4 ∧ (o.w.bk 4).volume = 1/2 := by decide +kernel
 
 end Examples
 end Props.C09
